@@ -165,90 +165,112 @@ def density(ctx, I):
             # returns a pair (count, scale)
             rets = [r for r in ast.walk(f.node) if isinstance(r, ast.Return)]
             ctx.ob("C20.density", f"kernel {name} returns (distribution, scale)", bool(rets) and all(isinstance(r.value, ast.Tuple) and len(r.value.elts) == 2 for r in rets), "", f"{ctx.program.relpath(mod.path)}:{f.node.lineno}")
-    # validation of the kernel name dominates the first table lookup
-    lookups = [n for n, s in cfg.stmt.items() if s is not None and any(
-        isinstance(x, ast.Subscript) and flow.dotted(x.value) == "SPHERICAL_COUNTING_KERNELS" for x in ast.walk(s) if not isinstance(s, (ast.If, ast.For)) or True)
-        and not isinstance(s, ast.If)]
-    checks = [n for n, s in cfg.stmt.items() if isinstance(s, ast.If) and any(
-        isinstance(c, ast.Compare) and any(isinstance(o, ast.NotIn) for o in c.ops) and any(flow.dotted(k) == "SPHERICAL_COUNTING_KERNELS" for k in c.comparators)
-        for c in ast.walk(s.test)) and flow_raises(s.body, "ValueError")]
-    lookups = [n for n in lookups if not isinstance(cfg.stmt[n], ast.For) or True]
-    okv = bool(checks) and bool(lookups) and all(any(cfg.dominates(c, l, idom) for c in checks) for l in lookups)
-    ctx.ob("C20.density", "unknown kernel name raises ValueError before any table lookup", okv, f"{len(checks)} validation(s), {len(lookups)} lookup statement(s)", loc)
-    # axial: abs of the dot products under `if axial`
-    absn = [n for n, s in cfg.stmt.items() if isinstance(s, ast.Assign) and isinstance(s.value, ast.Call)
-            and (flow.dotted(s.value.func) or "").endswith("abs")]
-    ax_if = [n for n, s in cfg.stmt.items() if isinstance(s, ast.If) and isinstance(s.test, ast.Name) and s.test.id == "axial"]
-    ctx.ob("C20.density", "axial data enter through |data·counter| (abs applied under `if axial`)", bool(absn) and bool(ax_if)
-           and any(cfg.stmt[a] in cfg.stmt[i].body for a in absn for i in ax_if), "", loc)
-    # normalisation precedes clipping
-    norm = [n for n, s in cfg.stmt.items() if isinstance(s, (ast.AugAssign, ast.Assign)) and "mean" in ast.unparse(s) and
-            isinstance(getattr(s, "target", None) or s.targets[0], ast.Name) and isinstance(getattr(s, "op", ast.Div()), ast.Div)]
-    clip = [n for n, s in cfg.stmt.items() if isinstance(s, ast.Assign) and isinstance(s.targets[0], ast.Subscript)
-            and isinstance(s.targets[0].slice, ast.Compare) and isinstance(s.targets[0].slice.ops[0], (ast.Lt, ast.LtE))]
-    clip += [n for n, s in cfg.stmt.items() if isinstance(s, ast.Assign) and isinstance(s.value, ast.Call)
-             and (flow.dotted(s.value.func) or "").split(".")[-1] in ("clip", "maximum")]
-    okn = bool(norm) and bool(clip) and all(any(cfg.dominates(a, c, idom) for a in norm) for c in clip)
-    ctx.ob("C20.density", "normalisation to the grid mean dominates the clipping of negative estimates", okn,
-           f"normalise at lines {[cfg.stmt[n].lineno for n in norm]}, clip at lines {[cfg.stmt[n].lineno for n in clip]}", loc)
-    # counters come from to_cartesian; projected with lambert_equal_area
-    src = ast.unparse(fn)
-    calls = [flow.dotted(c.func) or "" for c in flow.calls_in(fn)]
-    ctx.ob("C20.density", "counters are generated by geometry.to_cartesian", any(c.endswith("to_cartesian") for c in calls), "", loc)
-    lam = [c for c in flow.calls_in(fn) if (flow.dotted(c.func) or "").endswith("lambert_equal_area")]
-    tc = [s for s in ast.walk(fn) if isinstance(s, ast.Assign) and isinstance(s.value, ast.Call) and (flow.dotted(s.value.func) or "").endswith("to_cartesian")]
-    names = []
-    if tc:
-        t = tc[0].targets[0]
-        names = [e.id for e in t.elts] if isinstance(t, ast.Tuple) else []
-    lam_def = ctx.program.require("pydrex.geometry.lambert_equal_area")
-    pnames = [a.arg for a in lam_def.args.posonlyargs + lam_def.args.args]
-    bound = {}
-    if lam:
-        for p, a in zip(pnames, lam[0].args):
-            bound[p] = a
-        for k in lam[0].keywords:
-            if k.arg is not None:
-                bound[k.arg] = k.value
-    first3 = [bound.get(p) for p in pnames[:3]]
-    ctx.ob("C20.density", "grid points are the Lambert projection of the same counters", bool(lam) and bool(names)
-           and [a.id if isinstance(a, ast.Name) else None for a in first3] == names, f"to_cartesian -> {names}", loc)
-    # the projection as it is called here, for axial and for directed data: grid points stay in the closed unit disk (r^2 = 1-|z|)
-    extra = {p: v for p, v in bound.items() if p not in pnames[:3]}
-    if lam and extra:
-        from ..interp import Env
+    density_laws(ctx)
+    ctx.floor("C20.density", 40)
+
+
+def density_laws(ctx):
+    """point_density interpreted end to end, with the real kernels, on symbolic data: the clauses of C20 are decided on the extracted expressions."""
+    from ..interp import RaiseSig
+    from ..values import symarr, Unsupported
+    dotted = "pydrex.stats.point_density"
+    loc = defloc(ctx, dotted)
+    kernels = ("kamb_count", "schmidt_count", "exponential_kamb", "linear_inverse_kamb", "square_inverse_kamb")
+    M = 2
+    g = 4 if ctx.tier == "quick" else 5
+    G = g * g
+    x, y, z = symarr("dx", (M,)), symarr("dy", (M,)), symarr("dz", (M,))
+    w, sg = alg.psym("w"), alg.psym("sigma")
+
+    def run(I, kernel, axial, xs, ys, zs, weights=w):
+        kw = {"gridsteps": g, "weights": weights, "axial": axial, "kernel": kernel}
+        if kernel != "schmidt_count":
+            kw["σ"] = sg
+        return I.call(I.resolve(dotted), (xs, ys, zs), kw)
+
+    def peel(cell_):
+        """cell == max(n, 0) written as select(n < 0, 0, n), select(n <= 0, 0, n), maximum(n, 0) or clip(n, 0, None): returns n, or None"""
+        v = lift(cell_)
+        if v.is_monomial():
+            ((m_, c_),) = v.t.items()
+            if not (c_ == 1 and len(m_) == 1 and m_[0][1] == 1):
+                return None
+            at = m_[0][0]
+            if at.kind == "fn:select":
+                cond, a_, b_ = at.args
+                a_, b_ = lift(a_), lift(b_)
+                if a_ == ZERO and isinstance(cond, tuple) and len(cond) >= 5 and cond[1] == "cmp" and cond[2] in ("Lt", "LtE") and lift(cond[3]) == b_ and lift(cond[4]) == ZERO:
+                    return b_
+                if b_ == ZERO and isinstance(cond, tuple) and len(cond) >= 5 and cond[1] == "cmp" and cond[2] in ("Gt", "GtE") and lift(cond[3]) == a_ and lift(cond[4]) == ZERO:
+                    return a_
+            if at.kind == "fn:max" and isinstance(at.args[0], tuple) and len(at.args[0]) == 2:
+                p_, q_ = (lift(t_) for t_ in at.args[0])
+                if q_ == ZERO:
+                    return p_
+                if p_ == ZERO:
+                    return q_
+            if at.kind == "fn:clip" and len(at.args) == 3 and lift(at.args[1]) == ZERO and at.args[2] == "none":
+                return lift(at.args[0])
+        return None
+    I0 = Interp(ctx.program)
+    try:
+        run(I0, "no_such_kernel", True, x.copy(), y.copy(), z.copy())
+        ctx.ob("C20.density", "unknown kernel name raises ValueError", False, "accepted", loc)
+    except RaiseSig as r:
+        ctx.ob("C20.density", "unknown kernel name raises ValueError", r.exc.typename == "ValueError", f"raises {r.exc.typename}", loc)
+    for kernel in kernels:
         for axial in (True, False):
-            env = Env(mod)
-            env.vars["axial"] = axial
+            tag = f"{kernel}:axial={axial}"
+            I = Interp(ctx.program)
             try:
-                ek = {p: I.ev(v, env) for p, v in extra.items()}
-            except Exception as ex:
-                ctx.ob("C20.density", f"projection call arguments (axial={axial})", "inconclusive", f"cannot evaluate the extra arguments of the projection call: {ex}", loc)
+                out = run(I, kernel, axial, x.copy(), y.copy(), z.copy())
+            except RaiseSig as r:
+                ctx.ob("C20.density", tag, False, f"raises {r.exc.typename} on generic data", loc)
                 continue
-            lambert(ctx, I, "pydrex.geometry.", (), ek, tag=f"as called from point_density(axial={axial}): ",
-                    loc=f"{ctx.program.relpath(mod.path)}:{lam[0].lineno}")
-    # weights multiply the kernel values before they are summed
-    wmul = [n for n, s in cfg.stmt.items() if isinstance(s, (ast.AugAssign, ast.Assign)) and "weights" in ast.unparse(getattr(s, "value", s)) and
-            (isinstance(s, ast.AugAssign) and isinstance(s.op, ast.Mult) or isinstance(getattr(s, "value", None), ast.BinOp))]
-    tot = [n for n, s in cfg.stmt.items() if isinstance(s, ast.Assign) and isinstance(s.targets[0], ast.Subscript) and "sum" in ast.unparse(s.value)]
-    ctx.ob("C20.density", "weights scale the kernel values before the per-counter sum", bool(wmul) and bool(tot) and
-           all(any(cfg.dominates(w, t, idom) for w in wmul) for t in tot), f"{len(wmul)} weighting statement(s), {len(tot)} summation(s)", loc)
-    # the axial flag reaches the kernel and, inside the kernels, the radius helper
-    kcalls = [c for c in flow.calls_in(fn) if isinstance(c.func, ast.Subscript) and flow.dotted(c.func.value) == "SPHERICAL_COUNTING_KERNELS"]
-    ctx.ob("C20.density", "the kernel is called with axial=axial", bool(kcalls) and all(any(k.arg == "axial" and ast.unparse(k.value) == "axial" for k in c.keywords) for c in kcalls), "", loc)
-    for name, f in (table.items() if isinstance(table, dict) else []):
-        if not isinstance(f, FuncVal):
-            continue
-        rc = [c for c in ast.walk(f.node) if isinstance(c, ast.Call) and (flow.dotted(c.func) or "") == "_kamb_radius"]
-        for c in rc:
-            fw = any(k.arg == "axial" and ast.unparse(k.value) == "axial" for k in c.keywords) or (len(c.args) >= 3 and ast.unparse(c.args[2]) == "axial")
-            ctx.ob("C20.density", f"kernel {name} forwards its axial flag to the radius helper", fw, "", f"{ctx.program.relpath(mod.path)}:{c.lineno}")
-    kr = ctx.program.module("pydrex.stats").defs.get("_kamb_radius")
-    if isinstance(kr, ast.FunctionDef):
-        ifs = [i for i in ast.walk(kr) if isinstance(i, ast.If) and "axial" in ast.unparse(i.test)]
-        okk = bool(ifs) and any(isinstance(r, ast.Return) and ast.unparse(r.value).replace(" ", "") == "1-r" for i in ifs for r in i.body if "True" in ast.unparse(i.test) or ast.unparse(i.test) == "axial")
-        ctx.ob("C20.density", "_kamb_radius: axial data use the wider cone 1 - r, non-axial 1 - 2r", okk and "1-2*r" in ast.unparse(kr).replace(" ", ""), "", f"{ctx.program.relpath(mod.path)}:{kr.lineno}")
-    ctx.floor("C20.density", 19)
+            except Unsupported as ex:
+                ctx.ob("C20.density", tag, "inconclusive", f"outside the interpreted subset: {ex}", loc)
+                continue
+            ok_shape = isinstance(out, tuple) and len(out) == 3 and all(isinstance(o, np.ndarray) and o.shape == (g, g) for o in out)
+            ctx.ob("C20.density", f"{tag}: three ({g},{g}) grids", ok_shape, f"{[getattr(o, 'shape', None) for o in out] if isinstance(out, tuple) else out!r}", loc)
+            if not ok_shape:
+                continue
+            X, Y, D = out
+            # grid points lie in the closed unit disk (the grid is a constant of gridsteps: evaluate it)
+            try:
+                r2 = [alg.evalnum(lift(a) * lift(a) + lift(b) * lift(b)) for a, b in zip(X.flat, Y.flat)]
+                ctx.ob("C20.density", f"{tag}: grid points inside the closed unit disk", all(v == v and v <= 1 + 1e-12 for v in r2),
+                       f"squared radii of the {G} grid points: {['%.3g' % v for v in r2]}", loc)
+            except alg.AlgError as ex:
+                ctx.ob("C20.density", f"{tag}: grid points inside the closed unit disk", "inconclusive", f"the grid is not a closed expression of gridsteps: {ex}", loc)
+            # non-negative by construction: every cell is max(n, 0) with n the normalised estimate
+            ns = [peel(c_) for c_ in D.flat]
+            ctx.ob("C20.density", f"{tag}: every estimate is max(n, 0) of the normalised value n", all(n is not None for n in ns),
+                   f"cell 0: {short(D.flat[0], 120)}", loc)
+            if all(n is not None for n in ns):
+                ident(ctx, "C20.density", f"{tag}: grid mean of the normalised values is 1 before clipping", sum(ns, ZERO), lift(G), loc)
+            # order independence
+            def variant(name, xs, ys, zs):
+                try:
+                    o = run(Interp(ctx.program), kernel, axial, xs, ys, zs)
+                    ident_arr(ctx, "C20.density", f"{tag}: {name}", o[2], D, loc)
+                except RaiseSig as r:
+                    ctx.ob("C20.density", f"{tag}: {name}", False, f"raises {r.exc.typename}", loc)
+                except Unsupported as ex:
+                    ctx.ob("C20.density", f"{tag}: {name}", "inconclusive", f"outside the interpreted subset: {ex}", loc)
+            variant("independent of the order of the data", x[::-1].copy(), y[::-1].copy(), z[::-1].copy())
+            if axial:
+                xn, yn, zn = x.copy(), y.copy(), z.copy()
+                xn[0], yn[0], zn[0] = -xn[0], -yn[0], -zn[0]
+                variant("independent of the sign of a datum", xn, yn, zn)
+    # default weights (the scalar 1) behave as any scalar weight
+    try:
+        out1 = run(Interp(ctx.program), "linear_inverse_kamb", True, x.copy(), y.copy(), z.copy(), weights=1)
+        ns = [peel(c_) for c_ in out1[2].flat]
+        ctx.ob("C20.density", "default weight: estimates are max(n, 0)", all(n is not None for n in ns), "", loc)
+    except RaiseSig as r:
+        ctx.ob("C20.density", "default weight", False, f"raises {r.exc.typename}", loc)
+    except Unsupported as ex:
+        ctx.ob("C20.density", "default weight", "inconclusive", f"outside the interpreted subset: {ex}", loc)
 
 
 def flow_raises(body, name):
